@@ -148,6 +148,7 @@ func (e *C11) Run(c *core.Ctx, idx int) {
 		if r.Chance(1, 4) {
 			parts.Align = 1 + r.Intn(41) // a nested header close to a 4 KiB boundary of the stream
 		}
+		parts.OddSiblings = r.Chance(1, 4)
 		cr3 := gen.BuildCR3(r, parts, r.Pick(0, 1, 2, 3), r.Chance(1, 3))
 		top, named = cr3.Top, cr3.Named
 		data = cr3.Bytes
